@@ -169,18 +169,28 @@ Definition prev_compatible (prev : option picture) (fmt : option source_format) 
   | None => True
   | Some p => match format p, fmt with Some _, Some _ => format_eqb (format p) fmt = true | _, _ => True end
   end.
-Lemma rprp_not_needed prev fmt : prev_compatible prev fmt ->
+Lemma rprp_not_needed (ty : ptype_code) prev fmt : prev_compatible prev fmt ->
+  negb (match ty with IFrame => true | _ => false end) &&
   (match prev with
    | Some p => match format p, fmt with Some _, Some _ => negb (format_eqb (format p) fmt) | _, _ => false end
    | None => false
    end) = false.
 Proof.
-  destruct prev as [p|]; [|reflexivity]. unfold prev_compatible.
-  destruct (format p) as [a|]; destruct fmt as [b|]; intros H; try reflexivity. rewrite H. reflexivity.
+  intros H. apply Bool.andb_false_intro2.
+  destruct prev as [p|]; [|reflexivity]. unfold prev_compatible in H.
+  destruct (format p) as [a|]; destruct fmt as [b|]; try reflexivity. rewrite H. reflexivity.
 Qed.
+(* an INTRA picture may change the format *)
+Lemma rprp_not_needed_intra prev fmt :
+  negb (match IFrame with IFrame => true | _ => false end) &&
+  (match prev with
+   | Some p => match format p, fmt with Some _, Some _ => negb (format_eqb (format p) fmt) | _, _ => false end
+   | None => false
+   end) = false.
+Proof. reflexivity. Qed.
 
 Theorem std_roundtrip h prev scal rest pos :
-  wf_std h -> prev_compatible prev (Some (std_format (t_srcfmt h))) -> scal = false ->
+  wf_std h -> (t_pb h = false /\ t_inter h = false) \/ prev_compatible prev (Some (std_format (t_srcfmt h))) -> scal = false ->
   exists pos', decode_picture (mkOpts false scal) prev (mkReader (enc_std h ++ rest) pos)
                = Ok (Some (picture_of_std h), mkReader rest pos').
 Proof.
@@ -204,7 +214,7 @@ Proof.
   cbv zeta in N1, N2. rewrite N1, N2. cbn [bind orb].
   (* RPRP is needed only if the previous header transmitted a different format *)
   match goal with |- context [if ?X then Err EUnimplemented else _] =>
-    replace X with false by (symmetry; exact (rprp_not_needed _ _ Hprev)) end.
+    replace X with false by (symmetry; destruct Hprev as [[Hpb Hi]|Hp]; [rewrite Hpb, Hi; reflexivity|exact (rprp_not_needed _ _ _ Hp)]) end.
   cbn [bind].
   rdn.
   (* CPM / PSBI *)
